@@ -98,6 +98,13 @@ func genC03(t *rapid.T) *CaseC03 {
 		return c
 	}
 	c.Boxes = genBoxList(t, 8, 6, 4)
+	if rapid.IntRange(0, 79).Draw(t, "long") == 0 && len(c.Boxes) > 0 {
+		// long lists (size thresholds inside the implementation): many relatives of the first box
+		n := rapid.SampledFrom([]int{33, 64, 65, 130, 257}).Draw(t, "nLong")
+		for len(c.Boxes) < n {
+			c.Boxes = append(c.Boxes, genRelative(t, "lr", c.Boxes[rapid.IntRange(0, min(len(c.Boxes)-1, 3)).Draw(t, "lbase")], 3, 2))
+		}
+	}
 	c.H = genZoom(t, "H", 0, 35)
 	c.V = genZoom(t, "V", 0, 35)
 	if len(c.Boxes) > 0 && rapid.Bool().Draw(t, "near") {
@@ -136,6 +143,9 @@ func classifyC03(c *CaseC03) (bool, []string) {
 	}
 	if len(c.Boxes) == 0 {
 		cl = append(cl, "empty-list")
+	}
+	if len(c.Boxes) >= 33 {
+		cl = append(cl, "long-list")
 	}
 	if c.Spatial {
 		cl = append(cl, "spatial-api")
